@@ -130,7 +130,10 @@ pub fn run_scenario(sc: &Scenario, out: &mut Out, cmd: &str) {
 /// `real_clock`: tokio's clock is NOT paused - the 60 s budget is then wall-clock time, which is what a
 /// resolution that never waits on the network (CPU-bound search) has to be measured against
 pub fn run_scenario_clock(sc: &Scenario, out: &mut Out, cmd: &str, real_clock: bool) {
-    let cache = SharedCache::with_desired_size(512);
+    // a small desired size in some runs: resolutions insert more than twice that many records, and
+    // nothing may depend on the cache being below its desired size (it is only pruned periodically)
+    let cache_size: usize = if sc.question.name.labels.len() % 3 == 0 && !sc.script.is_empty() { 2 } else { 512 };
+    let cache = SharedCache::with_desired_size(cache_size);
     verif::set_clock_nanos(T0);
     cache.insert_all(&sc.cache_rrs);
     let log: Arc<Mutex<Vec<String>>> = Arc::new(Mutex::new(Vec::new()));
@@ -211,7 +214,7 @@ pub fn run_scenario_clock(sc: &Scenario, out: &mut Out, cmd: &str, real_clock: b
             sc.family,
             &mode_text(&sc.mode),
             &zones,
-            &c::rrs(&sc.cache_rrs),
+            &(if cache_size == 512 { c::rrs(&sc.cache_rrs) } else { format!("S{cache_size}:{}", c::rrs(&sc.cache_rrs)) }),
             &script,
             &c::question(&sc.question),
             sc.expect.as_deref().unwrap_or("-"),
